@@ -309,11 +309,35 @@ impl<'a> TreeGen<'a> {
                         let mut body = vec!["    inc r4".to_string(), format!("    ldi r20, {}", self.r.below(200)), "    nop ; shared leaf".to_string()];
                         // half of them carry an include guard built on `.exit`: assembled at the
                         // first inclusion only (so the body may define a label)
-                        if self.r.chance(1, 2) {
-                            let g = format!("SHARED_LEAF_{}_INCLUDED", t);
-                            let mut b = vec![format!(".ifdef {}", g), if self.r.chance(1, 2) { ".exit".to_string() } else { "    .exit".to_string() }, ".endif".to_string(), format!(".define {}", g), format!("shared_leaf_{}:", t)];
-                            b.extend(body);
-                            body = b;
+                        match self.r.below(4) {
+                            0 | 1 => {
+                                let g = format!("SHARED_LEAF_{}_INCLUDED", t);
+                                let mut b = vec![format!(".ifdef {}", g), if self.r.chance(1, 2) { ".exit".to_string() } else { "    .exit".to_string() }, ".endif".to_string(), format!(".define {}", g), format!("shared_leaf_{}:", t)];
+                                b.extend(body);
+                                body = b;
+                            }
+                            // the classic guard, closed before the end of the file: what follows it
+                            // (ending in another conditional block) is assembled at every inclusion;
+                            // or a guard with an else branch
+                            2 => {
+                                let g = format!("SHARED_LEAF_{}_H", t);
+                                let (i, d, e) = if self.r.chance(1, 2) { ("#ifndef", "#define", "#endif") } else { (".ifndef", ".define", ".endif") };
+                                let mut b = vec![format!("{} {}", i, g), format!("{} {}", d, g), format!("shared_leaf_{}:", t)];
+                                b.extend(body);
+                                if self.r.chance(1, 2) {
+                                    b.push(if e == "#endif" { "#else".to_string() } else { ".else".to_string() });
+                                    b.push("    dec r4 ; every later inclusion".to_string());
+                                    b.push(e.to_string());
+                                } else {
+                                    b.push(e.to_string());
+                                    b.push("    inc r5 ; outside the guard".to_string());
+                                    b.push(format!(".ifdef {}", g));
+                                    b.push("    swap r5".to_string());
+                                    b.push(".endif".to_string());
+                                }
+                                body = b;
+                            }
+                            _ => {}
                         }
                         self.files.push((self.caller_dirs[k].clone(), format!("twice{}.inc", t), None, body));
                         self.prepend.push(vec![]);
@@ -1550,6 +1574,19 @@ pub fn worker(cfg: &WorkerCfg, emit: &mut dyn FnMut(Violation)) -> Stats {
             let opened_keys: Vec<&String> = file_keys.iter().filter(|k| opened_in(&profile, k)).collect();
             let m = if !opened_keys.is_empty() && r.chance(4, 5) { opened_keys[r.usize(opened_keys.len())].clone() } else { file_keys[r.usize(file_keys.len())].clone() };
             let reached = opened_in(&profile, &m);
+            // now and then a file whose name differs from the missing one only in case lies
+            // where it was (a stale `config.inc` for a removed `Config.inc`): not the file named
+            if r.chance(1, 3) {
+                let b = basename(&m).to_string();
+                let v = if b.to_uppercase() != b { b.to_uppercase() } else { b.to_lowercase() };
+                if v != b {
+                    let decoy = format!("{}{}", &m[..m.len() - b.len()], v);
+                    if !f.files.contains_key(&decoy) {
+                        f.files.insert(decoy, "    inc r6 ; a stale file whose name differs in case\n".to_string());
+                        cx.stats.probe("missing_include_with_a_case_variant_in_its_place", reached);
+                    }
+                }
+            }
             f.missing = Some(m);
             if let Some(b2) = run_world(&mut cx, &f, seed, true) {
                 if reached {
